@@ -44,9 +44,71 @@ def bounds_rule(ck, mod, label):
                     ck.bad("R-C06-INV", f.name, "field-invariant@+%d#%s[%s]" % (o, _an(f, S), label),
                            "value %s stored into the buffer-position field always exceeds %d here: later calls index the block buffer out of bounds" % (fb.A.names(v), hi),
                            where=relpath(S.where))
+                elif _transient_ok(mod, fb, f, S, b[1], o, size, lo, hi, v):
+                    ck.ok("R-C06-INV", f.name, "field-invariant@+%d#%s[%s]" % (o, _an(f, S), label),
+                          "value stored into the buffer-position field is either within [%d,%d] at every return it reaches or overwritten before (no callee sees the field in between)" % (lo, hi), where=relpath(S.where))
                 else:
                     unknown.append("%s %s: value %s stored into the buffer-position field not shown to stay within [%d,%d]" % (f.name, relpath(S.loc), fb.A.names(v), lo, hi))
     return n, unknown
+
+
+def _transient_ok(mod, fb, f, S, argidx, o, size, lo, hi, v):
+    """the invariant of a state field has to hold when the function returns, not at every store: a stored value that may leave the range is
+    accepted when on every path from the store either the field is stored again, or a return is reached under conditions that put the value
+    into the range; and no callee that is handed a pointer covering the field runs in between"""
+    from ..aff import Lin
+
+    def scan(bid, start):
+        """-> 'covered' | 'fail' | 'go on'"""
+        blk = f.blocks[bid]
+        for iid in blk.insts[start:]:
+            I = f.insts[iid]
+            if I.op == "store" and I.id != S.id:
+                bb, oo = ir.ptr_base(f, I.ops[1])
+                if bb[0] == "a" and bb[1] == argidx and oo == o:
+                    return "covered"
+                if bb[0] == "a" and bb[1] == argidx and oo is None:
+                    return "fail"
+            elif I.op == "call" and I.callee and not I.is_dbg() and not I.is_lifetime():
+                g = mod.fns.get(I.callee)
+                for ai, a in enumerate(I.ops):
+                    try:
+                        av = fb.A.value(tuple(a))
+                    except Exception:
+                        continue
+                    base, off = fb.base_and_offset(av)
+                    if base != ("a", argidx):
+                        continue
+                    if g is None or off is None or off.constant() is None or ai >= len(g.params):
+                        return "fail"
+                    ext = fb.param_size(g, ai)
+                    if ext is None or ext.constant() is None:
+                        return "fail"
+                    if not (o >= off.constant() + ext.constant() or o + size <= off.constant()):
+                        return "fail"
+            elif I.op == "ret":
+                if fb.prove_nonneg_cases(v.add(Lin.const(-lo)), bid) and fb.prove_nonneg_cases(v.scale(-1).add(Lin.const(hi)), bid):
+                    return "covered"
+                return "fail"
+        return "go on"
+    pos = f.blocks[S.b].insts.index(S.id) + 1
+    r = scan(S.b, pos)
+    if r != "go on":
+        return r == "covered"
+    seen, todo = set(), list(f.blocks[S.b].succs)
+    while todo:
+        x = todo.pop()
+        if x in seen:
+            continue
+        seen.add(x)
+        if x == S.b:
+            return False        # back at the store through a loop without a covering store: not decided here
+        r = scan(x, 0)
+        if r == "fail":
+            return False
+        if r == "go on":
+            todo.extend(f.blocks[x].succs)
+    return True
 
 
 def nowrap_rule(ck, mod, label):
